@@ -397,4 +397,16 @@ example : (match resolve (diamond.override 4 { fn := 41, sig := {}, refs := [] }
     | .ok v => v.fns | .error _ => []) = [10, 20, 41, 30, 41] := by decide +kernel
 example : declOk (diamond.get 3).get!.sig = true := by decide
 
+/-- `twin_markers_independent`: two `Depends` objects are two markers even when they were created over one and the same
+    provider function — overriding one leaves what the other resolves to untouched (markers have identity, not value
+    semantics) -/
+theorem twin_markers_independent (e : Env) (k j : Nat) (p : Provider) (hjk : j ≠ k) :
+    (e.override k p).get j = e.get j := by
+  rw [get_override]; simp [hjk]
+
+example : let twins : Env := [(1, { fn := 10, sig := {}, refs := [] }), (2, { fn := 10, sig := {}, refs := [] })]
+    (match resolve (twins.override 1 { fn := 99, sig := {}, refs := [] }) 3 (.prov 2) with | .ok v => v.fns | .error _ => []) = [10] ∧
+    (match resolve (twins.override 1 { fn := 99, sig := {}, refs := [] }) 3 (.prov 1) with | .ok v => v.fns | .error _ => []) = [99] := by
+  decide +kernel
+
 end Repid.C18
